@@ -140,15 +140,23 @@ class _STIXBase(collections.abc.Mapping):
         extensions = kwargs.get("extensions")
         registered_toplevel_extension_props = {}
         has_unregistered_toplevel_extension = False
-        if extensions:
+        # Only a mapping of mappings can be scanned here; anything else is
+        # left for the "extensions" property's clean() (or the extra/custom
+        # property checks below) to report.
+        if extensions and isinstance(extensions, collections.abc.Mapping):
             for ext_id, ext in extensions.items():
+                if not isinstance(ext, collections.abc.Mapping):
+                    continue
                 if ext.get("extension_type") == "toplevel-property-extension":
                     registered_ext_class = class_for_type(
                         ext_id, "2.1", "extensions",
                     )
                     if registered_ext_class:
                         registered_toplevel_extension_props.update(
-                            registered_ext_class._toplevel_properties,
+                            getattr(
+                                registered_ext_class, "_toplevel_properties",
+                                {},
+                            ),
                         )
                     else:
                         has_unregistered_toplevel_extension = True
